@@ -119,6 +119,17 @@ func registerTaint(reg func(string, intrinsic)) {
 		in.ex.noteStub("harness stub (returns zero values): " + name)
 		return nil
 	})
+	// nd.StubReturn(name, first): calls of the named function return the given
+	// byte slice as their first result and zero values for the others
+	reg(ndPkg+".StubReturn", func(in *Interp, fn *ssa.Function, a []Value) Value {
+		if in.stubRet == nil {
+			in.stubRet = map[string]Value{}
+		}
+		name := in.argStr(a[0])
+		in.stubRet[name] = a[1]
+		in.ex.noteStub("harness stub (returns a harness-chosen first result, zero values for the rest): " + name)
+		return nil
+	})
 	fill := func(in *Interp, v Value, what string) int {
 		sl, ok := v.(SliceV)
 		if !ok {
